@@ -7,6 +7,7 @@ package main
 import (
 	"fmt"
 	"go/types"
+	"sort"
 	"strings"
 
 	"golang.org/x/tools/go/ssa"
@@ -135,11 +136,14 @@ func (e *Engine) loopHeader(fr *Frame, h *ssa.BasicBlock, st *State) *State {
 	// 2. havoc
 	ns := st.clone()
 	cells, heapAll := e.loopModified(fr, body)
+	var modCells []*Cell
 	for a := range cells {
-		cell := fr.cellOf[a]
-		if cell == nil {
-			continue // allocated inside the loop: initialised by its Alloc
+		if cell := fr.cellOf[a]; cell != nil {
+			modCells = append(modCells, cell) // (allocs inside the loop are initialised by their Alloc)
 		}
+	}
+	sort.Slice(modCells, func(i, j int) bool { return modCells[i].id < modCells[j].id })
+	for _, cell := range modCells {
 		if _, live := ns.cells[cell]; !live {
 			continue
 		}
@@ -175,7 +179,12 @@ func (e *Engine) loopHeader(fr *Frame, h *ssa.BasicBlock, st *State) *State {
 		// because every map written in the body is declared before the back edge
 		// and the function is re-run to a fixed point of declared maps).
 	}
+	var gnames []string
 	for name := range st.ghost {
+		gnames = append(gnames, name)
+	}
+	sort.Strings(gnames)
+	for _, name := range gnames {
 		if ghostWrittenIn(body) {
 			ns.ghost[name] = e.vc.declare("GL_"+name, e.ghostSort(name))
 		}
@@ -246,8 +255,7 @@ func (e *Engine) assumeLoopFrame(fr *Frame, lc *loopCtx, name, srt, pre, nh stri
 			changed = or(changed, c)
 		}
 		// objects allocated during the loop are not constrained
-		e.vc.assume("true", fmt.Sprintf("(forall ((%s Int)) (! (=> (and (<= %s %s) (not %s)) (= (select %s %s) (select %s %s))) :pattern ((select %s %s))))",
-			q, q, st.wm, changed, nh, q, pre, q, nh, q))
+		e.vc.assume("true", e.frameAxiom(srt, q, st.wm, changed, nh, pre))
 		if elemsRanges != "" {
 			e.vc.decls = append(e.vc.decls, "(assert (and true"+elemsRanges+"))")
 		}
@@ -274,8 +282,7 @@ func (e *Engine) assumeLoopFrame(fr *Frame, lc *loopCtx, name, srt, pre, nh stri
 		}
 		changed = or(changed, fmt.Sprintf("(= %s %s)", q, m.ref))
 	}
-	e.vc.assume("true", fmt.Sprintf("(forall ((%s Int)) (! (=> (and (<= %s %s) (not %s)) (= (select %s %s) (select %s %s))) :pattern ((select %s %s))))",
-		q, q, e.entryState.wm, changed, nh, q, entryMap, q, nh, q))
+	e.vc.assume("true", e.frameAxiom(srt, q, e.entryState.wm, changed, nh, entryMap))
 	if elemsRanges != "" {
 		e.vc.decls = append(e.vc.decls, "(assert (and true"+elemsRanges+"))")
 	}
@@ -377,4 +384,18 @@ func (e *Engine) loopFrameCheckRange(fr *Frame, st *State, el types.Type, base, 
 		}
 		e.vc.oblige(e.oname(fr, fmt.Sprintf("loop%d:frame:M_%s", lc.ord, e.typeKey(el))), st.pc, allowed, "range write outside the loop's modifies clause")
 	}
+}
+
+// frameAxiom: objects up to the watermark that are not in the changed set keep
+// their value. For maps of arrays (backing stores) the axiom is stated per
+// element, so that the solver never has to reason about equality of arrays.
+func (e *Engine) frameAxiom(srt, q, wm, changed, nh, pre string) string {
+	inner := arrayElemSort(srt)
+	if strings.HasPrefix(inner, "(Array ") {
+		j := e.vc.fresh("j")
+		return fmt.Sprintf("(forall ((%s Int) (%s %s)) (! (=> (and (<= %s %s) (not %s)) (= (select (select %s %s) %s) (select (select %s %s) %s))) :pattern ((select (select %s %s) %s))))",
+			q, j, e.ar.idxSort(), q, wm, changed, nh, q, j, pre, q, j, nh, q, j)
+	}
+	return fmt.Sprintf("(forall ((%s Int)) (! (=> (and (<= %s %s) (not %s)) (= (select %s %s) (select %s %s))) :pattern ((select %s %s))))",
+		q, q, wm, changed, nh, q, pre, q, nh, q)
 }
